@@ -175,6 +175,10 @@ class Model(object):
             return any(self.sid(s) == ast[1] for s in self.configuration)
         if k == "not":
             return not self.ev(ast[1])
+        if k == "evname":
+            if getattr(self, "cur_event", None) is None:
+                raise ModelError("_event read before any event")
+            return self.cur_event
         a, b = self.ev(ast[1]), self.ev(ast[2])
         if k == "add":
             return a + b
@@ -404,6 +408,8 @@ class Model(object):
 
     def select(self, event):
         """selectTransitions / selectEventlessTransitions (event None)"""
+        if event is not None:
+            self.cur_event = event
         if "alt_after_preempt" in self.variant:
             sel = self.select_alt_after_preempt(event)
             return sorted(sel, key=self.postfix_index)
